@@ -20,8 +20,11 @@ FixedAr == << <<"match">> >>
 
 Cfgs   == [aud : {"uri", "empty"}]
 \* the two dimensions are varied one at a time to keep the product small
-Inputs == [ars : Seqs(Restrictions, MaxRestrictions), otu : BOOLEAN, proxy : {NoProxy}] \cup
-          [ars : {FixedAr, << >>}, otu : BOOLEAN, proxy : ProxyShapes]
+\* win: the SP clock relative to the Conditions validity window (the subject confirmation stays valid,
+\* so the Response is accepted either way and only the time warning differs)
+Wins == {"in", "before", "after"}
+Inputs == [ars : Seqs(Restrictions, MaxRestrictions), otu : BOOLEAN, proxy : {NoProxy}, win : Wins] \cup
+          [ars : {FixedAr, << >>}, otu : BOOLEAN, proxy : ProxyShapes, win : Wins]
 
 \* exact string equality after concretisation
 Eq(tok, cfgaud) == (cfgaud = "uri" /\ tok = "match") \/ (cfgaud = "empty" /\ tok = "emptyaud")
@@ -32,17 +35,18 @@ Loop(cfg, ars, i) ==
    IF i > Len(ars) THEN FALSE
    ELSE IF \E j \in DOMAIN ars[i] : Eq(ars[i][j], cfg.aud) THEN Loop(cfg, ars, i + 1) ELSE TRUE
 CountNum(c) == CASE c = "1" -> 1 [] c = "5" -> 5 [] OTHER -> 0
-ModelOut(cfg, in) == [res |-> "accept", nia |-> Loop(cfg, in.ars, 1), otu |-> in.otu,
+ModelOut(cfg, in) == [res |-> "accept", time |-> in.win # "in", nia |-> Loop(cfg, in.ars, 1), otu |-> in.otu,
                       proxy |-> [present |-> in.proxy.present, count |-> CountNum(in.proxy.count), aud |-> in.proxy.aud]]
 
 ---------------------------------------------------------------------------
 \* o: [res, nia, otu, proxy : [present, count (number), aud (sequence of tokens)]]
 C06_OK(cfg, in, o) ==
    /\ o.res = "accept"                                  \* conditions only ever warn
+   /\ o.time <=> in.win # "in"                          \* (C05) and the other warnings do not depend on it
    /\ o.nia <=> (\E i \in DOMAIN in.ars : \A j \in DOMAIN in.ars[i] : ~Eq(in.ars[i][j], cfg.aud))
    /\ o.otu <=> in.otu
    /\ o.proxy.present <=> in.proxy.present
    /\ in.proxy.present => (o.proxy.count = CountNum(in.proxy.count) /\ o.proxy.aud = in.proxy.aud)
 C09_OK(cfg, in, o) == o.res \in {"accept", "reject"}
-Conforms(m, o) == o.res = m.res /\ o.nia = m.nia /\ o.otu = m.otu /\ o.proxy = m.proxy
+Conforms(m, o) == o.res = m.res /\ o.time = m.time /\ o.nia = m.nia /\ o.otu = m.otu /\ o.proxy = m.proxy
 =============================================================================
